@@ -422,20 +422,58 @@ func fpMap[V any](m map[core.PubKey]V) string {
 // ---- harness dependencies -----------------------------------------------------------------------
 
 // deadliner schedules every expiring duty forever; exits and builder registrations are exempt as
-// with the production deadline function.
-type deadliner struct{ ch chan core.Duty }
+// with the production deadline function. It is also the hook at which the harness holds a store
+// mid-operation: armBlock makes the next Add block until released (and report which goroutine
+// called it), armExpired makes the next Add report the duty as expired.
+type deadliner struct {
+	ch chan core.Duty
 
-func newDeadliner() deadliner { return deadliner{ch: make(chan core.Duty)} }
+	mu      sync.Mutex
+	mode    int // 0 pass, 1 block the next Add, 2 next Add says expired
+	entered chan int
+	release chan struct{}
+}
 
-func (deadliner) Add(d core.Duty) core.DeadlineStatus {
-	if d.Type == core.DutyExit || d.Type == core.DutyBuilderRegistration {
+func newDeadliner() *deadliner { return &deadliner{ch: make(chan core.Duty)} }
+
+func (d *deadliner) Add(duty core.Duty) core.DeadlineStatus {
+	d.mu.Lock()
+	mode, entered, release := d.mode, d.entered, d.release
+	d.mode = 0
+	d.mu.Unlock()
+	switch mode {
+	case 1:
+		entered <- goid()
+		<-release
+	case 2:
+		return core.DeadlineExpired
+	}
+	if duty.Type == core.DutyExit || duty.Type == core.DutyBuilderRegistration {
 		return core.DeadlineExempt
 	}
 
 	return core.DeadlineScheduled
 }
 
-func (d deadliner) C() <-chan core.Duty { return d.ch }
+func (d *deadliner) C() <-chan core.Duty { return d.ch }
+
+// armBlock gates the next Add: entered yields the goroutine id of its caller once it is inside,
+// release lets it continue.
+func (d *deadliner) armBlock() (entered <-chan int, release func()) {
+	e, r := make(chan int, 1), make(chan struct{})
+	d.mu.Lock()
+	d.mode, d.entered, d.release = 1, e, r
+	d.mu.Unlock()
+	var once sync.Once
+
+	return e, func() { once.Do(func() { close(r) }) }
+}
+
+func (d *deadliner) armExpired() {
+	d.mu.Lock()
+	d.mode = 2
+	d.mu.Unlock()
+}
 
 // ---- generic store probe ------------------------------------------------------------------------
 
@@ -447,6 +485,8 @@ type storeOps struct {
 	close  func()
 	// noWaiters: the read does not block (PubKeyByAttestation): no reader is started before a store
 	noWaiters bool
+	// dl is the deadliner of this instance (the hook for holding the store mid-operation)
+	dl *deadliner
 	// sentinel (optional) performs a query for another, already stored key through the same
 	// hand-over channel as read and returns when it was answered (see blocked_test.go)
 	sentinel func(ctx context.Context) error
@@ -548,6 +588,12 @@ func (pc *probe) runStore(orig any, mk func() storeOps) {
 		return
 	}
 	pc.runStoreBlocked(orig, want, mk)
+
+	// (f) hand-overs that fail, are cancelled, or are cancelled while the store is held mid-operation
+	if pc.aliasingEstablished() {
+		return
+	}
+	pc.runStoreCancelled(orig, want, mk)
 }
 
 func (pc *probe) runStoreConcurrent(orig any, want string, mk func() storeOps) {
